@@ -94,7 +94,8 @@ def field_kept_for_connection(rel, field, ctor, uses):
     if re.search(r'(take|replace)\s*\(\s*&mut\s+self\s*\.\s*%s' % re.escape(field), msk) or re.search(r'self\s*\.\s*%s\s*\.\s*clear\s*\(' % re.escape(field), msk):
         fails.append('self.%s is reset (take/replace/clear)' % field)
     for u in uses:
-        calls = list(re.finditer(r'%s\s*\(([^;]*?)\)\s*\??\s*;' % re.escape(u), msk, re.S))
+        calls = [c for c in re.finditer(r'(?<!fn )\b%s\s*\(((?:[^()]|\([^()]*\))*)\)' % re.escape(u), msk, re.S)
+                 if not re.search(r'fn\s+$', msk[max(0, c.start() - 8):c.start()])]
         if not calls:
             return {'status': 'undecided', 'reason': 'no call of %s found in %s: the receive path changed shape' % (u, rel)}
         for c in calls:
@@ -124,3 +125,41 @@ def no_truncating_cast_of_term_integers(rels):
     if seen == 0:
         return {'status': 'undecided', 'reason': 'no as_integer() call left in %s: the wrappers changed shape' % ', '.join(rels)}
     return {'status': 'fail' if fails else 'ok', 'fails': fails, 'src': '%s:1' % rels[0]}
+
+
+def occurs_exactly(rel, pattern, count):
+    """a construct occurs exactly `count` times in the (comment- and string-masked) source file"""
+    path = os.path.join(os.environ.get('VERIF_REPO', '/repo'), rel)
+    try:
+        src = open(path).read()
+    except OSError as e:
+        return {'status': 'undecided', 'reason': str(e)}
+    n = len(re.findall(pattern, mask(src)))
+    if n == count:
+        return {'status': 'ok', 'fails': [], 'src': '%s:1' % rel}
+    return {'status': 'fail', 'fails': ['%s occurs %d times in %s (expected %d)' % (pattern, n, rel, count)], 'src': '%s:1' % rel}
+
+
+def first_statement(rel, qual, regex):
+    """the first statement of the function body matches `regex`"""
+    try:
+        sf = extract.SourceFile(rel)
+        it = sf.find_fn(qual)
+    except extract.LostAnchor as e:
+        return {'status': 'undecided', 'reason': str(e)}
+    body = sf.src[it.body_open + 1:it.end - 1]
+    msk = mask(body)
+    depth, end = 0, None
+    for k, ch in enumerate(msk):
+        if ch in '([{':
+            depth += 1
+        elif ch in ')]}':
+            depth -= 1
+        elif ch == ';' and depth == 0:
+            end = k
+            break
+    first = msk[:end].strip() if end else ''
+    line = sf.src.count('\n', 0, it.sig_start) + 1
+    if re.search(regex, first):
+        return {'status': 'ok', 'fails': [], 'src': '%s:%d' % (rel, line)}
+    return {'status': 'fail', 'fails': ['the first statement of %s is `%s`' % (qual, first[:80])], 'src': '%s:%d' % (rel, line)}
